@@ -530,7 +530,8 @@ inductive Op where
   | conf (pos height : Nat)              -- deliver on the live conf registration #pos
   | confDirect (height : Nat)            -- stale / racing notification: handler called directly
   | spend (pos : Nat) (k : SpendKind) (height : Nat)
-  | spendT (pos : Nat) (t : Tx) (height : Nat) -- deliver a given transaction on the live spend registration #pos
+  | consumeSpend (pos : Nat)                   -- the live spend registration #pos fires (its goroutine takes the event)
+  | spendH (t : Tx) (height : Nat)             -- … and runs HandleAccountSpend with the reported transaction
   | spendDirect (k : SpendKind) (height : Nat)
   | block (h : Nat)                      -- expiryWatcher.NewBlock(h)
   | expiryDirect
@@ -566,13 +567,13 @@ def step (s : AState) : Op → AState × Res
         let s := { s with w := { s.w with spendRegs := s.w.spendRegs.filter (fun x => x.id != r.id) } }
         let r := handleSpend s t h
         ({ r.1 with w := { r.1.w with spendMap := none } }, r.2)
-  | .spendT pos t h =>
+  | .consumeSpend pos =>
     match s.w.spendRegs[pos]? with
     | none => (s, .err)
-    | some r =>
-      let s := { s with w := { s.w with spendRegs := s.w.spendRegs.filter (fun x => x.id != r.id) } }
-      let r := handleSpend s t h
-      ({ r.1 with w := { r.1.w with spendMap := none } }, r.2)
+    | some r => ({ s with w := { s.w with spendRegs := s.w.spendRegs.filter (fun x => x.id != r.id) } }, .ok)
+  | .spendH t h =>
+    let r := handleSpend s t h
+    ({ r.1 with w := { r.1.w with spendMap := none } }, r.2)
   | .spendDirect k h =>
     match spendTx s k (s.acct.map (·.outpoint) |>.getD ⟨0, 0⟩) with
     | none => (s, .err)
